@@ -52,8 +52,8 @@ PROPS = {
     "C07": dict(
         level="fault_enumeration",
         runs=dict(quick=102400, thorough=1638400),
-        rule="family spawn: configuration = index/64 (streams, cwd, ids, detached, PATH search), injection point = index%64: no fault; k-th descriptor allocation (1..10); k-th fcntl(F_SETFD) (1..12); fork (EAGAIN/ENOMEM); each child-side step (chdir, dup2, setuid, setgid, setpgid) x errno table; exec candidate 0..3 x errno table; natural causes (missing, non-executable, directory, not a binary, bad cwd, refused identity change, unsearchable directory); second spawn failing while the first is alive; non-trivial = a fault fired or a natural failure cause was hit; distinct as C01",
-        assumptions=COMMON_ASSUME + ["failing close() and EINTR are not injected (the property does not state behaviour under them)"],
+        rule="family spawn: configuration = index/64 (streams, cwd, ids, detached, PATH search), injection point = index%64: no fault; k-th descriptor allocation (1..10); k-th fcntl(F_SETFD) (1..12); fork (EAGAIN/ENOMEM); each child-side step (chdir, dup2, setuid, setgid, setpgid) x errno table; exec candidate 0..3 x errno table; natural causes (missing, non-executable, directory, not a binary, bad cwd, refused identity change, unsearchable directory); second spawn failing while the first is alive; EINTR at the parent's blocking calls (launch-status read, waitpid) with the launch succeeding, failing, or detached; each configuration also with a random subset of the parent's descriptors 0-2 closed (1 run in 6); non-trivial = a fault fired or a natural failure cause was hit; distinct as C01",
+        assumptions=COMMON_ASSUME + ["a failing close() is not injected (the property does not state behaviour under it)"],
         expect_probes=["alloc_fd_fail", "fcntl_fail", "fork_fail", "child_step_fail", "exec_errno"],
     ),
     "C08": dict(
